@@ -195,14 +195,16 @@ class CachedStore(Entity):
         """
         self._writes += 1
 
-        # Update cache
-        self._cache_put(key, value)
-
         if self._write_through:
-            # Write to backing store
+            # Write to the backing store first and update the cache in the same
+            # step in which that write lands: a miss-fill that read the old
+            # value while the write was in flight can then never end up on top
+            # of the new one.
             yield from self._backing_store.put(key, value)
+            self._cache_put(key, value)
         else:
-            # Mark as dirty for later writeback
+            # Update cache and mark as dirty for later writeback
+            self._cache_put(key, value)
             self._dirty_keys.add(key)
             yield self._cache_read_latency  # Just cache write latency
 
@@ -219,10 +221,15 @@ class CachedStore(Entity):
             True if key existed in either cache or backing store.
         """
         existed_in_cache = key in self._cache
-        if existed_in_cache:
-            self._cache_remove(key)
 
         existed_in_store = yield from self._backing_store.delete(key)
+
+        # Drop the cache entry in the same step in which the backing-store
+        # delete lands; dropping it earlier lets a concurrent miss re-fill the
+        # cache with the value that is about to be deleted.
+        if key in self._cache:
+            existed_in_cache = True
+            self._cache_remove(key)
         return existed_in_cache or existed_in_store
 
     def invalidate(self, key: str) -> None:
